@@ -138,6 +138,58 @@ def _worker(args):
         return ("err", "partition %r: %s" % (part, traceback.format_exc()))
 
 
+def opt_partitions(mod, tier):
+    """partitions that are run a second time in a child interpreter started with `-O -W error` (assert statements and
+    `if __debug__:` blocks removed; every warning raised as an exception, as under pytest's filterwarnings=error): a library must
+    behave the same there.  A module may name them (OPT_PARTITIONS(tier)); the default is every partition
+    in the thorough tier and, in the quick tier, every partition of a module that sets OPT_QUICK_ALL, else every third one."""
+    if getattr(mod, "NO_OPT_PASS", False):
+        return []
+    if hasattr(mod, "OPT_PARTITIONS"):
+        return mod.OPT_PARTITIONS(tier)
+    parts = mod.partitions(tier)
+    if tier != "quick" or getattr(mod, "OPT_QUICK_ALL", False):
+        return parts
+    return parts[::3]
+
+
+def _opt_worker(args):
+    """run one partition in `python -O`; the result comes back pickled on stdout"""
+    import pickle
+    import subprocess
+    modname, part, tier, seed = args
+    env = dict(os.environ)
+    env["PYTHONPATH"] = ROOT
+    try:
+        p = subprocess.run([sys.executable, "-O", "-W", "error", "-c", "from vf.runner import opt_child; opt_child()", modname, tier, str(seed), os.environ["VF_REPO"]],
+                           input=jdump(part).encode(), capture_output=True, env=env, cwd=ROOT, timeout=3600)
+        if p.returncode != 0:
+            return ("err", "partition %r under python -O: exit %d: %s" % (part, p.returncode, p.stderr.decode()[-800:]))
+        st, acc = pickle.loads(p.stdout)
+        if st != "ok":
+            return (st, acc)
+        acc.viol = {"python-O/" + k: [c, "[under python -O -W error] " + w, [["-O", x] for x in cs]] for k, (c, w, cs) in acc.viol.items()}
+        acc.extra = {"python_O_partitions": 1, "python_O_evaluations": acc.evaluations}
+        acc.nontrivial = {hash(("-O", h)) for h in acc.nontrivial}
+        acc.samples = []
+        return ("ok", acc)
+    except BaseException:
+        return ("err", "partition %r under python -O: %s" % (part, traceback.format_exc()))
+
+
+def opt_child():
+    import pickle
+    assert False, "this interpreter must run with -O"          # (stripped under -O; without -O the child refuses to run)
+    modname, tier, seed, repo = sys.argv[1:5]
+    part = json.loads(sys.stdin.read())
+    setup_repo(repo)
+    out = sys.stdout.buffer
+    sys.stdout = sys.stderr                     # whatever the partition prints must not corrupt the result
+    res = _worker((modname, part, tier, int(seed)))
+    out.write(pickle.dumps(res))
+    out.flush()
+
+
 def load_known():
     p = os.path.join(ROOT, "known_findings.json")
     if not os.path.exists(p):
@@ -170,7 +222,20 @@ def main(argv=None):
         rec = json.load(open(a.replay))
         case = rec["case"]
         try:
-            viols = mod.replay(case)
+            if isinstance(case, list) and len(case) == 2 and case[0] == "-O":
+                import subprocess
+                env = dict(os.environ)
+                env["PYTHONPATH"] = ROOT
+                p = subprocess.run([sys.executable, "-O", "-W", "error", "-c",
+                                    "import sys, json; from vf import runner; runner.setup_repo(sys.argv[2]); import importlib; "
+                                    "m = importlib.import_module(sys.argv[1]); print(runner.jdump(m.replay(json.loads(sys.stdin.read()))))",
+                                    modname, os.environ["VF_REPO"]], input=jdump(case[1]).encode(), capture_output=True, env=env, cwd=ROOT)
+                if p.returncode != 0:
+                    sys.stderr.write(p.stderr.decode()[-2000:])
+                    return 2
+                viols = [("python-O/" + k, "[under python -O -W error] " + w) for k, w in json.loads(p.stdout.decode().strip().splitlines()[-1])]
+            else:
+                viols = mod.replay(case)
         except Exception:
             traceback.print_exc()
             return 2
@@ -229,6 +294,18 @@ def _run(a, mod, modname, pid, seed, t0):
     if pool:
         pool.close()
         pool.join()
+    # second pass: the same partitions (or the module's choice of them) in an interpreter started with -O
+    ojobs = [(modname, p, a.tier, seed) for p in opt_partitions(mod, a.tier)]
+    if ojobs:
+        from multiprocessing.pool import ThreadPool
+        tp = ThreadPool(max(1, min(a.jobs, len(ojobs))))
+        for st, val in tp.imap_unordered(_opt_worker, ojobs):
+            if st == "ok":
+                total.merge(val)
+            else:
+                errors.append(val)
+        tp.close()
+        tp.join()
     wall = time.time() - t0
     if errors:
         for e in errors[:5]:
